@@ -166,13 +166,21 @@ class Woven:
     def insert_after_tok(self, idx, text, label=None):
         self._ins(self.ct[idx][3], text, label)
 
-    def insert_before(self, pattern, text, nth='only', label=None):
+    def insert_before(self, pattern, text, nth='only', label=None, optional=False):
+        """optional=True: a proof hint that only helps the statement it is anchored on; when that statement is gone
+        the hint is dropped (the obligations it helped with are gone too, or fail on their own)."""
+        if optional and self._find(pattern, count=True) == 0:
+            return False
         a, _ = self._find(pattern, nth)
         self.insert_before_tok(a, text, label)
+        return True
 
-    def insert_after(self, pattern, text, nth='only', label=None):
+    def insert_after(self, pattern, text, nth='only', label=None, optional=False):
+        if optional and self._find(pattern, count=True) == 0:
+            return False
         _, b = self._find(pattern, nth)
         self.insert_after_tok(b, text, label)
+        return True
 
     def replace(self, pattern, text, rule, nth='all'):
         n = self._find(pattern, count=True)
@@ -352,6 +360,116 @@ class Woven:
         self._ins(self.ct[c][3], ' ' + after_loop + ' }')
 
     # ---- rendering -------------------------------------------------------------------
+    # ---- T15: mechanical inlining of a helper that has no contract --------------------------------
+    def _split_commas(self, lo, hi):
+        """Token ranges of the top-level comma-separated pieces of ct[lo..hi] (inclusive); empty pieces dropped."""
+        parts, start, i = [], lo, lo
+        while i <= hi:
+            t = self.ct[i]
+            if t[0] == 'p' and t[1] in '([{':
+                i = match_close(self.ct, i)
+            elif t[1] == '<' and t[0] == 'p':
+                try:
+                    i = skip_angles(self.ct, i) - 1
+                except Exception:
+                    pass
+            elif t[0] == 'p' and t[1] == ',':
+                if i > start:
+                    parts.append((start, i - 1))
+                start = i + 1
+            i += 1
+        if hi >= start:
+            parts.append((start, hi))
+        return parts
+
+    def inline_calls(self, helper, kind, table):
+        """T15: every call `name(args)` (kind 'fn') or `self.name(args)` (kind 'method') inside this item becomes
+        `{ let (p1, p2,): (T1, T2,) = (args,); let kv_ret: R = BODY; kv_ret }`, BODY being the helper's own body
+        (ghost-threaded by the same callee table).  Only for helpers whose body has no return / ? / loop / nested
+        fn / unsafe and whose signature has no generics; anything else is not inlinable (ExtractError => undecided).
+        Returns the number of call sites rewritten."""
+        ct = self.ct
+        name = helper.name
+        sites = []
+        lo, hi = self.item.lo, self.hi
+        for i in range(lo, hi - 1):
+            if ct[i][1] != name or ct[i][0] != 'id' or ct[i + 1][1] != '(':
+                continue
+            prev = ct[i - 1][1]
+            if prev == 'fn':
+                continue
+            if kind == 'fn':
+                if prev in ('.', '::'):
+                    continue
+                a = i
+            else:
+                if not (prev == '.' and ct[i - 2][1] == 'self' and ct[i - 3][1] not in ('.',)):
+                    continue
+                a = i - 2
+            if helper.lo <= i <= helper.hi:
+                continue   # the helper's own text (recursion is not inlinable anyway)
+            if any(r.start <= ct[i][2] < r.end for r in self.repls):
+                continue
+            sites.append((a, i + 1, match_close(ct, i + 1)))
+        if not sites:
+            return 0
+        hv = Woven(self.src, helper, self.relpath, self.path[:1] + ['<helper %s>' % name], self.props)
+        k = hv.fn_kw()
+        if ct[k + 2][1] == '<':
+            raise ExtractError('helper %s (no contract) is generic: cannot be inlined' % name)
+        po, pc = hv.params()
+        o, c = hv.body()
+        for j in range(o + 1, c):
+            t = ct[j]
+            if (t[0] == 'id' and t[1] in ('return', 'loop', 'while', 'for', 'fn', 'unsafe', 'await', 'break', 'continue')) or (t[0] == 'p' and t[1] == '?'):
+                raise ExtractError('helper %s (no contract) contains `%s`: cannot be inlined; it needs a contract of its own' % (name, t[1]))
+        pats, tys = [], []
+        has_self = False
+        for (x, y) in self._split_commas(po + 1, pc - 1):
+            toks = [ct[j][1] for j in range(x, y + 1)]
+            if toks[-1] == 'self' and all(tk in ('&', 'mut', 'self') or tk.startswith("'") for tk in toks):
+                has_self = True
+                continue
+            colon = None
+            for j in range(x, y + 1):
+                if ct[j][1] == ':' and ct[j][0] == 'p':
+                    colon = j
+                    break
+            pat = [ct[j][1] for j in range(x, colon)]
+            if colon is None or not (len(pat) == 1 or (len(pat) == 2 and pat[0] == 'mut')) or ct[colon - 1][0] != 'id':
+                raise ExtractError('helper %s (no contract) has a parameter pattern that cannot be inlined' % name)
+            ty = self.src[ct[colon + 1][2]:ct[y][3]]
+            if 'impl ' in ty or "'" in ty:
+                raise ExtractError('helper %s (no contract) has a parameter type that cannot be spelled in a let' % name)
+            pats.append(' '.join(pat))
+            tys.append(ty)
+        if (kind == 'method') != has_self:
+            raise ExtractError('helper %s: receiver does not match its call sites' % name)
+        ret = '()'
+        if ct[pc + 1][1] == '-' and ct[pc + 2][1] == '>':
+            ret = self.src[ct[pc + 3][2]:ct[o - 1][3]]
+        hv.thread(table)
+        hv.lo, hv.hi = o, c
+        body_text, _ = hv.render()
+        import re as _re
+        body_text = _re.sub(r'/\*\+K\*/|/\*-K\*/', '', body_text)
+        for (a, b, cl) in sites:
+            if ct[cl - 1][1] == ',' and cl - 1 > b:
+                raise ExtractError('call of helper %s has a trailing comma' % name)
+            if pats:
+                if cl == b + 1:
+                    raise ExtractError('call of helper %s has no arguments' % name)
+                head = '{ let (%s,): (%s,) = (' % (', '.join(pats), ', '.join(tys))
+                tail = ',); let kv_ret: %s = %s; kv_ret }' % (ret, body_text)
+            else:
+                head = '{ let kv_ret: %s = %s; kv_ret }' % (ret, body_text)
+                tail = ''
+                self.repls.append(Repl(ct[a][2], ct[cl][3], head, 'T15-inline-helper:' + name))
+                continue
+            self.repls.append(Repl(ct[a][2], ct[b][3], head, 'T15-inline-helper:' + name))
+            self.repls.append(Repl(ct[cl][2], ct[cl][3], tail, 'T15-inline-helper:' + name))
+        return len(sites)
+
     def render(self):
         """Returns (text, label_spans) where label_spans = [(line_lo, line_hi, label)] relative
         to the first line (0-based) of the rendered text."""
